@@ -259,9 +259,10 @@ def r4_3(ctx):
     base = pr.has("cur_msg_seqs = set(self.msg_sequences(key))") and pr.has("new_msg_seqs = set(flags)")
     has_unseen = base and pr.has("if 'Seen' not in new_msg_seqs:\n    new_msg_seqs.add('unseen')")
     keeps_recent = base and pr.has("if 'Recent' in cur_msg_seqs:\n    new_msg_seqs.add('Recent')")
-    removes = base and pr.has("to_remove = cur_msg_seqs - new_msg_seqs")
-    adds = base and pr.has("for seq in new_msg_seqs:\n    self.sequences[seq].add(key)")
-    discs = removes and (pr.has("for seq in to_remove:\n    self.sequences[seq].discard(key)") or pr.has("for seq2 in to_remove:\n    self.sequences[seq2].discard(key)"))
+    removes = adds = discs = base and any(pr.has(x) or pr.has(x.replace("seq2", "seq")) for x in (
+        "to_remove = cur_msg_seqs - new_msg_seqs\nfor seq in new_msg_seqs:\n    self.sequences[seq].add(key)\nfor seq2 in to_remove:\n    self.sequences[seq2].discard(key)",
+        "to_remove = cur_msg_seqs - new_msg_seqs\nfor seq2 in to_remove:\n    self.sequences[seq2].discard(key)\nfor seq in new_msg_seqs:\n    self.sequences[seq].add(key)",
+    ))
     for okv, txt in ((has_unseen, "replace: `unseen` added when Seen is absent"), (keeps_recent, "replace: Recent preserved"), (removes and adds and discs, "replace: new set added, (current - new) removed")):
         if okv:
             ctx.ok("R4.3", where(rp), txt)
@@ -457,6 +458,20 @@ def r4_6(ctx):
             ctx.ok("R4.6", where(fi), "queued notifications are flushed (or the command refused) on every path before the operation is admitted")
 
 
+def _through_local(fi, x):
+    """A local name that is assigned exactly once in the function stands for the expression it was assigned (a case-folded
+    spelling computed once before the loop is the same test as one computed in it)."""
+    if isinstance(x, ast.Name):
+        defs = [s for s in body_walk(fi.node) if isinstance(s, ast.Assign) and len(s.targets) == 1 and isinstance(s.targets[0], ast.Name) and s.targets[0].id == x.id]
+        stores = [n for n in ast.walk(fi.node) if isinstance(n, ast.Name) and n.id == x.id and isinstance(n.ctx, ast.Store)]
+        if len(defs) == 1 and len(stores) == 1:
+            reads = {n.id for n in ast.walk(defs[0].value) if isinstance(n, ast.Name)}
+            later = [n for n in ast.walk(fi.node) if isinstance(n, ast.Name) and n.id in reads and isinstance(n.ctx, ast.Store) and n.lineno > defs[0].lineno]
+            if not later:  # nothing the expression reads changes after it was computed
+                return defs[0].value
+    return x
+
+
 def r4_7(ctx):
     r"""Case spellings: RFC 3501 flag names are case-insensitive, the server compares them case-sensitively everywhere
     (flag_to_seq, the \Recent guard, SYSTEM_FLAG_MAP).  So the one producer of client flags, _p_flag, must fold every
@@ -474,7 +489,7 @@ def r4_7(ctx):
             v = loop.target.id
             for iff in walk_no_nested(loop):
                 if isinstance(iff, ast.If) and isinstance(iff.test, ast.Compare) and len(iff.test.ops) == 1 and isinstance(iff.test.ops[0], ast.Eq):
-                    sides = [iff.test.left, iff.test.comparators[0]]
+                    sides = [_through_local(fi, x) for x in (iff.test.left, iff.test.comparators[0])]
                     if all(isinstance(x, ast.Call) and call_name(x) in fold and not x.args for x in sides) and call_name(sides[0]) == call_name(sides[1]):
                         recv = {norm(call_recv(x)) for x in sides}
                         if v in recv and len(recv) == 2 and any(isinstance(r_, ast.Return) and norm(r_.value) in (v, f"str({v})", f"{v}.value") for r_ in iff.body):
